@@ -348,6 +348,16 @@ def from_tensor_rep(tensorrep, dims):
     return Qobj(data.reshape(dims.shape), dims=dims)
 
 
+def _tensor_order(steps, flat):
+    """
+    Order of the tensor indices of one side of a ``Dimensions``: largest step
+    first.  Steps are equal only next to 1-dimensional spaces: then the space
+    which is not 1-dimensional comes first and the others keep their order,
+    so that the tensor indices of a simple space follow its dims.
+    """
+    return np.lexsort((np.asarray(flat) == 1, -np.asarray(steps)))
+
+
 def _frozen(*args, **kwargs):
     raise RuntimeError("Dimension cannot be modified.")
 
@@ -862,8 +872,8 @@ class Dimensions(metaclass=MetaDims):
         stepr = self.from_.step()
         flatr = self.from_.flat()
         return tuple(np.concatenate([
-            np.array(flatl)[np.argsort(stepl)[::-1]],
-            np.array(flatr)[np.argsort(stepr)[::-1]],
+            np.array(flatl)[_tensor_order(stepl, flatl)],
+            np.array(flatr)[_tensor_order(stepr, flatr)],
         ]))
 
     def _get_tensor_perm(self):
@@ -874,9 +884,11 @@ class Dimensions(metaclass=MetaDims):
         # dims_to_tensor_perm
         stepl = self.to_.step()
         stepr = self.from_.step()
+        flatl = self.to_.flat()
+        flatr = self.from_.flat()
         return list(np.argsort(np.concatenate([
-            np.argsort(stepl)[::-1],
-            np.argsort(stepr)[::-1] + len(stepl)
+            _tensor_order(stepl, flatl),
+            _tensor_order(stepr, flatr) + len(stepl)
         ])))
 
     def replace_superrep(self, super_rep: str) -> "Dimensions":
